@@ -115,6 +115,30 @@ impl FraudProof for BadEncodingFraudProof {
                 (AxisType::Col, AxisType::Col) => header.dah.column_root(self.index).unwrap(),
             };
 
+            // The proof must be for the single leaf at the position this share
+            // claims to occupy: its slot in the axis when proven on the same axis,
+            // or the index of the axis itself when proven on the orthogonal one,
+            // in a tree as wide as the square. Otherwise shares that are honestly
+            // committed elsewhere in that tree could be rearranged into an axis
+            // that doesn't decode to the committed root.
+            let expected_idx = if *proof_axis == self.axis {
+                share_idx
+            } else {
+                usize::from(self.index)
+            };
+            if proof.start_idx() as usize != expected_idx
+                || proof.end_idx() as usize != expected_idx + 1
+            {
+                bail_validation!(
+                    "proof range ({}..{}) of share {share_idx} doesn't match its position ({expected_idx})",
+                    proof.start_idx(),
+                    proof.end_idx(),
+                );
+            }
+            if proof.total_leaves() != Some(square_width) {
+                bail_validation!("proof of share {share_idx} is not for a tree of the square width");
+            }
+
             proof
                 .verify_range(&root, &[&share], **namespace)
                 .map_err(Error::RangeProofError)?;
